@@ -284,6 +284,83 @@ where
     }
 }
 
+/// Several polynomials of different sizes in ONE open / check call (univariate Ligero: the key does
+/// not fix the matrix shape): every proof in the list must carry the column count of its own codeword.
+pub fn multi_proofs(rec: &mut Rec) {
+    use ark_poly::DenseUVPolynomial;
+    type S = SLig;
+    let q = modulus_of::<Fr381>();
+    let cfg = KeyCfg::uni(1 << 20, 1 << 20, 1, None);
+    let degs = [3usize, 40, 300, 1100];
+    let r = rho_stream::<Fr381>(rec.seed, 9, 1101);
+    let keys = match build_keys::<S>(&cfg, rec.seed) {
+        Ok(k) => k,
+        Err(_) => return,
+    };
+    let z = <S as Sch>::points(&cfg, rec.seed)[0].1.clone();
+    for i in 0..degs.len() {
+        for j in 0..degs.len() {
+            for k in [None, Some((i + 2) % degs.len())] {
+                let mut sel = vec![degs[i], degs[j]];
+                if let Some(k) = k {
+                    sel.push(degs[k]);
+                }
+                let id = format!("LIG/columns/one-call/degrees={:?}", sel).replace(' ', "");
+                if !rec.take(&id) {
+                    continue;
+                }
+                rec.dim("scheme", "LIG");
+                rec.op(3);
+                let polys: Vec<LP<S>> = sel.iter().enumerate().map(|(n, d)| lp::<S>(&format!("m{}", n), UP::<Fr381>::from_coefficients_slice(&r[..=*d]), None, None)).collect();
+                let c = match commit_set::<S>(&keys, polys, rec.seed, 0) {
+                    Ok(c) => c,
+                    Err(_) => continue,
+                };
+                let all: Vec<usize> = (0..sel.len()).collect();
+                let s1 = match open_single::<S>(&keys, &c, &all, &z, 0, rec.seed, 0) {
+                    Ok(s) => s,
+                    Err(o) => {
+                        viol(rec, "LIG/open/column-openings", &id, format!("open of several polynomials failed: {}", o.short()));
+                        continue;
+                    }
+                };
+                let bp: BPf<S> = vec![s1.proof.clone()].into();
+                let pfl: Vec<Vec<MProof<Fr381>>> = convert(&bp);
+                let pf: Vec<MProof<Fr381>> = pfl.into_iter().next().unwrap_or_default();
+                let mut ok = pf.len() == sel.len();
+                let mut bad = format!("{} proofs for {} polynomials", pf.len(), sel.len());
+                if ok {
+                    for (n, m) in pf.iter().enumerate() {
+                        let cm: MComm = convert(c.comms[n].commitment());
+                        let want = ref_t(&q, keys.ck.sec_param(), ref_distance::<S>(&keys.ck), cm.metadata.n_ext_cols);
+                        if Some(m.opening.columns.len()) != want || Some(m.opening.paths.len()) != want {
+                            ok = false;
+                            bad = format!("polynomial {} (degree {}, codeword length {}): {} columns / {} paths opened, its security level needs {:?}", n, sel[n], cm.metadata.n_ext_cols, m.opening.columns.len(), m.opening.paths.len(), want);
+                            break;
+                        }
+                    }
+                }
+                let comms: Vec<&LCm<S>> = c.comms.iter().collect();
+                let d = check_single::<S>(&keys, &comms, &z, &s1.values, &s1.proof, 0, rec.seed, 0);
+                if ok && !d.accepted() {
+                    ok = false;
+                    bad = format!("honest proof not accepted: {}", d.short());
+                }
+                let mut sp = sponge_pre::<Fr381>(0);
+                let rel = catch(|| S::ref_check(&keys.vk, &comms, &z, &s1.values, &s1.proof, &mut sp)).unwrap_or(false);
+                if ok && !rel {
+                    ok = false;
+                    bad = "opened positions / columns do not satisfy the reference replay of the transcript".into();
+                }
+                rec.class(if ok { "columns-ok" } else { "columns-bad" });
+                if !ok {
+                    viol(rec, "LIG/open/column-openings", &id, bad);
+                }
+            }
+        }
+    }
+}
+
 /// Row encoders: linear, of the declared length, wrong lengths refused.
 pub fn encoders<S: HashRef>(rec: &mut Rec)
 where
@@ -412,6 +489,7 @@ pub fn run(rec: &mut Rec) {
     proofs::<SMll>(rec);
     proofs::<SBrk>(rec);
     brakedown_custom(rec);
+    multi_proofs(rec);
     encoders::<SLig>(rec);
     encoders::<SMll>(rec);
     encoders::<SBrk>(rec);
